@@ -145,6 +145,15 @@ fn crafted_inference_programs() -> Vec<String> {
             v.push(format!("pub fn main(x: u8, c: bool) -> u8 {{ let mut r = 0u8; let y = match c {{ true => {{ {val}; {tail} }}, false => {val} }}; r }}\n"));
         }
     }
+    // a struct literal / pattern that names one field twice and leaves another one out
+    for (lit, pat) in [("P { x: a, x: b }", "P { x: p, x: q }"), ("P { y: a, y: b }", "P { y: p, y: q }"), ("Q { x: a, y: b, x: a }", "Q { x: p, y: q, y: p }"), ("Q { z: a, z: b, z: a }", "Q { x: p, x: q, x: p }")] {
+        let defs = "struct P { x: u8, y: u8 }\nstruct Q { x: u8, y: u8, z: u8 }\n";
+        v.push(format!("{defs}pub fn main(a: u8, b: u8) -> u8 {{ let s = {lit}; a }}\n"));
+        v.push(format!("{defs}pub fn main(a: u8, b: u8) -> u8 {{ let s = {lit}; s.x }}\n"));
+        let whole = if pat.starts_with('P') { "P { x: a, y: b }" } else { "Q { x: a, y: b, z: a }" };
+        v.push(format!("{defs}pub fn main(a: u8, b: u8) -> u8 {{ let {pat} = {whole}; p }}\n"));
+        v.push(format!("{defs}pub fn main(a: u8, b: u8) -> u8 {{ match {whole} {{ {pat} => p }} }}\n"));
+    }
     // a definition that is dropped because a later one has the same name must not hide its errors
     for prog in [
         "fn f(a: u8) -> u8 { a + undefined }\nfn f(a: u8) -> u8 { a }\npub fn main(x: u8) -> u8 { f(x) }\n",
